@@ -58,8 +58,8 @@ Proof.
       by (unfold word_ok; cbn [forallb piece_ok existsb piece_solid]; rewrite Hfb; destruct flag; [congruence|reflexivity]).
     assert (D : dots_text_ok n [[Lit flag]] false = true)
       by (unfold dots_text_ok, render_words, render_word; cbn [map List.concat join_sep render_piece]; rewrite app_nil_r, He; reflexivity).
-    assert (A : atom_ok (AStr v) = true)
-      by (unfold atom_ok; cbn [truthy_atom render_atom]; rewrite Hv; destruct v; [congruence|reflexivity]).
+    assert (A : atom_ok [[Lit flag]] (AStr v) = true)
+      by (unfold atom_ok, atom_benign; cbn [truthy_atom render_atom]; rewrite Hv; destruct v; [congruence|reflexivity]).
     unfold field_ok. cbn [f sf_name sf_argstr sf_ty sf_sep]. rewrite Hn, Hl. cbn [forallb]. rewrite W, D, A. reflexivity. }
   rewrite (contrib_ok f vals vals [[Lit flag]] false eq_refl Hok eq_refl) by (cbn [f sf_name]; rewrite Hl; discriminate).
   unfold spec_contrib. cbn [f sf_argstr sf_name]. rewrite Hl. unfold occurrence. cbn. now rewrite app_nil_r.
@@ -81,8 +81,8 @@ Proof.
       by (unfold word_ok; cbn [forallb piece_ok existsb piece_solid]; rewrite Hpre, Hpost; now rewrite orb_true_r).
     assert (D : dots_text_ok n [[Lit pre; Self; Lit post]] false = true)
       by (unfold dots_text_ok, render_words, render_word; cbn [map List.concat join_sep render_piece]; rewrite app_nil_r, He; reflexivity).
-    assert (A : atom_ok (AStr v) = true)
-      by (unfold atom_ok; cbn [truthy_atom render_atom]; rewrite Hv; destruct v; [congruence|reflexivity]).
+    assert (A : atom_ok [[Lit pre; Self; Lit post]] (AStr v) = true)
+      by (unfold atom_ok, atom_benign; cbn [truthy_atom render_atom]; rewrite Hv; destruct v; [congruence|reflexivity]).
     assert (I : inert [[Lit pre; Self; Lit post]] vals v = true)
       by (unfold inert, occ_text, inst_word; cbn [has_ph existsb is_ph orb negb map List.concat join_sep inst_piece]; now rewrite app_nil_r, Hbr).
     unfold field_ok. cbn [f sf_name sf_argstr sf_ty sf_sep]. rewrite Hn, Hl. cbn [forallb render_atom]. rewrite W, D, A, I. reflexivity. }
